@@ -163,6 +163,8 @@ int kalign_read_input(char* infile, struct msa** msa, int quiet)
         }else{
                 *msa = m;
         }
+        /* m has been freed or handed to the caller: it must not be freed again below */
+        m = NULL;
         /* LOG_MSG("%d " , (*msa)->aligned); */
         RUN(check_for_sequences(*msa));
         return OK;
